@@ -189,7 +189,7 @@ def make_replay(pid, ob, src, hdir, first_out, replay_dir):
     os.makedirs(replay_dir, exist_ok=True)
     path = os.path.join(replay_dir, "%s.replay" % ob["name"])
     res = run_limited(kani_cmd(ob, ["-Z", "concrete-playback", "--concrete-playback=print"]), src,
-                      ob.get("timeout", 900) * 2, ob.get("mem_gb", 12) * 2**30)
+                      ob.get("timeout", 900) * 3 + 600, 30 * 2**30)
     tests = []
     for blk in PLAYBACK_RE.findall(res["out"] or ""):
         if "concrete_playback_run" in blk and "Check for `cover`" not in blk:
@@ -219,6 +219,7 @@ def make_replay(pid, ob, src, hdir, first_out, replay_dir):
         "concrete_playback_test": tests[0] if tests else None,
         "test_name": test_name,
         "replayed_on_real_code": reproduced,
+        "playback_generation": "killed: %s" % res["killed"] if res["killed"] else "ok",
         "native_output_tail": (native_out or "")[-4000:],
         "verifier_output_tail": (first_out or "")[-6000:],
         "how_to_replay": "./check replay %s" % path,
@@ -402,10 +403,7 @@ def cmd_check(pid, tier, repo, only, keep, jobs):
                     continue
                 violations.append(r)
                 suffix = "" if reproduced else " no-failing-input-found"
-                log("VIOLATION property=%s replay=%s obligation=%s :: %s%s" %
-                    (pid, path, o["name"], r["detail"].split("\n")[0][:300], suffix)
-                    if False else
-                    "VIOLATION property=%s replay=%s%s" % (pid, path, suffix))
+                log("VIOLATION property=%s replay=%s%s" % (pid, path, suffix))
                 log("  failed obligation: %s -- %s" % (o["name"], r["detail"].split("\n")[0][:300]))
             elif r["status"] == "undecided":
                 undecided.append(r)
